@@ -128,7 +128,7 @@ def read_history(hdir):
 def gen_history(rng, hdir, idx):
     """A small valid evolution built from safe building blocks (every statement executes on SQLite)."""
     tables, mig_list, version = {}, [], 0
-    n_migs = rng.choice([2, 2, 3, 4])
+    n_migs = rng.choice([2, 3, 3, 4])
     uid = lambda v: "" if rng.random() < 0.15 else "0190%04x-0000-7000-8000-%012x" % (idx, v)
     tcount = [0]
 
@@ -140,23 +140,51 @@ def gen_history(rng, hdir, idx):
         return {"type": "create_table", "table": t, "constraints": [],
                 "columns": [{"name": "id", "type": "integer", "nullable": False, "primary_key": True}] +
                            [{"name": c, "type": rng.choice(["text", "integer", {"kind": "varchar", "length": 40}]), "nullable": True} for c in cols[1:]]}
+    rawtables = []
+
+    def add_col(t):
+        info = tables[t]
+        c = "c%d" % info["n"]
+        info["n"] += 1
+        info["cols"].append(c)
+        return {"type": "add_column", "table": t, "fill_with": None,
+                "column": {"name": c, "type": rng.choice(["text", "integer", "boolean"]), "nullable": True}}
     for _ in range(n_migs):
         version += rng.choice([1, 1, 1, 2, 5])
         acts = []
         for _ in range(rng.randint(1, 3)):
             choice = rng.random()
-            if not tables or choice < 0.3:
+            if not tables or choice < 0.22:
                 acts.append(new_table())
                 continue
             t = rng.choice(sorted(tables))
             info = tables[t]
-            if choice < 0.55:
-                c = "c%d" % info["n"]
-                info["n"] += 1
-                info["cols"].append(c)
-                acts.append({"type": "add_column", "table": t, "fill_with": None,
-                             "column": {"name": c, "type": rng.choice(["text", "integer", "boolean"]), "nullable": True}})
-            elif choice < 0.75:
+            if choice < 0.30:
+                # a table the in-memory schema never hears of (apply_action ignores raw_sql)
+                rt = "raw%d_%d" % (idx, len(rawtables) + tcount[0] * 10)
+                rawtables.append(rt)
+                acts.append({"type": "raw_sql", "sql": "CREATE TABLE %s (x INTEGER)" % rt})
+            elif choice < 0.42 and rawtables:
+                # a modelled action on it: valid SQL, rejected by apply_action (error ignored by the macro, lib.rs:73-76);
+                # never last in its migration: a schema change on a tracked table follows
+                rt = rng.choice(rawtables)
+                if rng.random() < 0.5:
+                    acts.append({"type": "add_column", "table": rt, "fill_with": None,
+                                 "column": {"name": "y%d" % version, "type": "integer", "nullable": True}})
+                else:
+                    rawtables.remove(rt)
+                    acts.append({"type": "delete_table", "table": rt})
+                acts.append(add_col(t))
+            elif choice < 0.52 and not info.get("view") and len(info["cols"]) > 1:
+                # SQLite rebuild: its SQL is generated from the baseline threaded through ALL earlier actions
+                free = [c for c in info["cols"][1:] if c not in info["ix"]]
+                if free:
+                    acts.append({"type": "modify_column_type", "table": t, "column": rng.choice(free), "new_type": {"kind": "varchar", "length": 100}})
+                else:
+                    acts.append(add_col(t))
+            elif choice < 0.66:
+                acts.append(add_col(t))
+            elif choice < 0.80:
                 free = [c for c in info["cols"][1:] if c not in info["ix"]]
                 if not free:
                     acts.append(new_table())
@@ -166,6 +194,7 @@ def gen_history(rng, hdir, idx):
                 acts.append({"type": "add_constraint", "table": t,
                              "constraint": {"type": rng.choice(["index", "unique"]), "columns": [c]}})
             elif choice < 0.9:
+                info["view"] = True
                 acts.append({"type": "raw_sql", "sql": "CREATE VIEW v%d_%d AS SELECT id FROM %s%s" % (idx, version * 10 + len(acts), "", t)})
             else:
                 free = [c for c in info["cols"][1:] if c not in info["ix"]]
@@ -192,7 +221,7 @@ def history_dirs(tier, seed):
     if tier == "thorough":
         rng = random.Random(seed * 7919 + 13)
         gd = os.path.join(MIG, "gen", str(seed))
-        for i in range(6):
+        for i in range(8):
             hd = os.path.join(gd, "g%02d" % i)
             gen_history(rng, hd, i)
             dirs.append(hd)
